@@ -216,6 +216,32 @@ fn gen_bad(rng: &mut Rng) -> U {
         (b"*XYZ", Some(-113), "undefined-header"),
         (b"STAT:OPER:FOO?", Some(-113), "undefined-header"),
         (b"SYST:ERR:NEXT:MORE?", Some(-113), "undefined-header"),
+        // headers that would only be defined if some node of the library's status/system trees were optional that is not
+        (b"STAT:EVEN?", Some(-113), "undefined-header"),
+        (b"STAT:COND?", Some(-113), "undefined-header"),
+        (b"STAT:ENAB?", Some(-113), "undefined-header"),
+        (b"STAT:PTR 1", Some(-113), "undefined-header"),
+        (b"STAT:NTR?", Some(-113), "undefined-header"),
+        (b"OPER:EVEN?", Some(-113), "undefined-header"),
+        (b"QUES:COND?", Some(-113), "undefined-header"),
+        (b"OPER?", Some(-113), "undefined-header"),
+        (b"EVEN?", Some(-113), "undefined-header"),
+        (b"COND?", Some(-113), "undefined-header"),
+        (b"ENAB 1", Some(-113), "undefined-header"),
+        (b"ERR?", Some(-113), "undefined-header"),
+        (b"ERR:NEXT?", Some(-113), "undefined-header"),
+        (b"SYST:NEXT?", Some(-113), "undefined-header"),
+        (b"SYST:COUN?", Some(-113), "undefined-header"),
+        (b"SYST:ALL?", Some(-113), "undefined-header"),
+        (b"NEXT?", Some(-113), "undefined-header"),
+        (b"VERS?", Some(-113), "undefined-header"),
+        (b"PRES", Some(-113), "undefined-header"),
+        (b"STAT:OPER:PRES", Some(-113), "undefined-header"),
+        (b"STAT?", Some(-113), "undefined-header"),
+        (b"SYST?", Some(-113), "undefined-header"),
+        (b"TEST?", Some(-113), "undefined-header"),
+        (b"FAIL 1", Some(-113), "undefined-header"),
+        (b"SYST:ERR:NEXT:COUN?", Some(-113), "undefined-header"),
         (b"*ESE 'x'", None, "type"),
         (b"*SRE (1)", None, "type"),
         (b"STAT:QUES:PTR \"1\"", None, "type"),
@@ -591,6 +617,12 @@ fn run_history<Q: QueueBackend + 'static>(rng: &mut Rng, ctx: &mut Ctx, focus: F
                 }
             }
             ctx.count("device-side.condition-updates");
+            // the device-side read accessors agree with the model (and change nothing)
+            let mask: u16 = if rng.bool() { 1 << rng.usize(16) } else { rng.next() as u16 };
+            if dr.get_condition_bit(mask) != (mr.cond & mask != 0) {
+                ctx.violation(&format!("{}:device-side-condition-accessor-differs", p), jobj(&[("mask", format!("\"{:#06x}\"", mask)), ("condition", format!("\"{:#06x}\"", mr.cond))]));
+                return;
+            }
             // double toggle between reads now and then
             if rng.chance(1, 6) {
                 dr.set_condition(!x);
